@@ -221,6 +221,40 @@ func c09Request(rng *rand.Rand, buckets []string, st *c09State) *drv.Req {
 		}
 		q.Query += "versionId=" + url.QueryEscape(v.id)
 	}
+	// aimed continuation requests: the marker combinations a paging client would send, with real ids
+	switch rng.Intn(24) {
+	case 0:
+		if len(st.versions) > 0 {
+			v := st.versions[rng.Intn(len(st.versions))]
+			q.Method, q.Path = "GET", "/"+buckets[0]
+			q.Query = drv.Q("versions", drv.Bare, "key-marker", v.key, "version-id-marker", v.id, "max-keys", hostileInts[rng.Intn(12)])
+			if rng.Intn(3) == 0 {
+				q.Query += "&prefix=" + url.QueryEscape(gen.Pick(rng, []string{"v", "v/", "k", "zz", "d/"})) + "&delimiter=%2F"
+			}
+		}
+	case 1:
+		if len(st.versions) > 1 {
+			// key marker of one key with the version id of another
+			a, b := st.versions[rng.Intn(len(st.versions))], st.versions[rng.Intn(len(st.versions))]
+			q.Method, q.Path = "GET", "/"+buckets[0]
+			q.Query = drv.Q("versions", drv.Bare, "key-marker", a.key, "version-id-marker", b.id, "max-keys", "2")
+		}
+	case 2:
+		if len(st.uploads) > 0 {
+			u := st.uploads[rng.Intn(len(st.uploads))]
+			q.Method, q.Path = "GET", "/"+buckets[0]
+			q.Query = drv.Q("uploads", drv.Bare, "key-marker", u.key, "upload-id-marker", u.id, "max-uploads", hostileInts[rng.Intn(12)])
+		}
+	case 3:
+		if len(st.uploads) > 0 {
+			u := st.uploads[rng.Intn(len(st.uploads))]
+			q.Method, q.Path = "GET", "/"+buckets[0]+"/"+u.key
+			q.Query = drv.Q("uploadId", u.id, "part-number-marker", hostileInts[rng.Intn(len(hostileInts))], "max-parts", hostileInts[rng.Intn(12)])
+		}
+	case 4:
+		q.Method, q.Path = "GET", "/"+buckets[0]
+		q.Query = drv.Q("list-type", "2", "max-keys", hostileInts[rng.Intn(12)], "start-after", c09Keys[rng.Intn(len(c09Keys))], "delimiter", "/")
+	}
 	// headers
 	for i := rng.Intn(4); i > 0; i-- {
 		switch rng.Intn(14) {
